@@ -135,3 +135,27 @@ Proof.
   apply (Merge_cons [] (1, OTick 0) [] [[]]).
   apply Merge_nil. repeat constructor.
 Qed.
+
+(** ------------------------------------------------------------------------------------------
+    The premise of [C02_interleaving_partial] ("every public call is one atomic step") tied to the
+    source: in the lock-footprint table that tools/locks_extract.py regenerates from /repo/src on
+    every run (gen/LockFootprints.v), every public method of ProgressBar / MultiProgress is a
+    SINGLE outermost critical section over the bar mutex / the MultiState lock - one bracket from
+    the mutation through the paint - except the calls listed in [Brackets.allowed_sections] with
+    the number of sections they have (adding a bar = two steps, dropping the last handle, the
+    ticker loop).  A change that splits a bracket (e.g. releasing the bar mutex in the middle of
+    `remove`) breaks this obligation. *)
+From IndModel Require Import Locks Brackets.
+From IndGen Require Import LockFootprints.
+From IndProofs Require Import BracketsProofs.
+From Coq Require Import String.
+Theorem C02_atomic_brackets_generated : forall name fp,
+  In (name, fp) all_footprints -> (sections fp <= allowed_sections name)%nat.
+Proof. exact generated_brackets. Qed.
+Print Assumptions C02_atomic_brackets_generated.
+
+Example C02_atomic_brackets_nonvacuous :
+  In ("MultiProgress::remove"%string, [CAcq CBar; CAcq CMulti; CRel CMulti; CRel CBar]) all_footprints
+  /\ sections [CAcq CBar; CAcq CMulti; CRel CMulti; CRel CBar] = 1%nat
+  /\ sections [CAcq CBar; CRel CBar; CAcq CMulti; CRel CMulti; CAcq CBar; CRel CBar] = 3%nat.
+Proof. exact generated_brackets_nonvacuous. Qed.
